@@ -604,7 +604,7 @@ pub fn run(args: &Args) {
 	out.rule = format!(
 		"every decoding entry point with an error channel ({}) is fed random bytes and, mostly, mutations of VALID encodings produced by the real writers and the independent encoders \
 (bit flips, byte replacement, truncation, deletion, duplication, splices of two valid encodings, length fields set to 2^31/2^32/2^63/2^64-1 and neighbours, multi-byte UTF-8 placed at every \
-alignment relative to error sites, JSON/VPL nesting to 512 quick / 5000 thorough, multi-byte characters straddling ABSOLUTE byte offsets 16..4096 (+-1) of malformed and valid documents, VPL nesting 64/65/66 and 5000 after lexically tricky prefixes (quoted values ending in an escaped backslash, escaped quotes, brackets inside quotes; depth > 64 must be err), self-referential PMTiles leaf directories, semantic corruption of SQLite rows, odd tar member names); \
+alignment relative to error sites, JSON/VPL nesting to 512 quick / 5000 thorough, JSON nesting 1023..1026 around the parser's limit of 1024 and 20 000 / 100 000 levels as crash probes, multi-byte characters straddling ABSOLUTE byte offsets 16..4096 (+-1) of malformed and valid documents, VPL nesting 64/65/66 and 5000 after lexically tricky prefixes (quoted values ending in an escaped backslash, escaped quotes, brackets inside quotes; depth > 64 must be err), self-referential PMTiles leaf directories, semantic corruption of SQLite rows, odd tar member names); \
 container cases perform a sequence of single-tile lookups on one opened reader (first coordinate three times, all probes, all probes again: cache-hit paths after errors and successes); each case runs in a child process (RLIMIT_AS 4 GiB, 10 s watchdog) under catch_unwind with a counting global allocator. Oracle: verdict is ok or err (never panic, abort, SIGSEGV, timeout) and the \
 largest single allocation request is <= {}*|input| + 24 MiB. Entry points with a Lean model (json, csv, mvt, pbfstr, pmdir, pmfind, pmhdr, vtblk, vtbidx, vttidx, vthdr, vpl; input <= 4 KiB) are also compared with the model's verdict. \
 non-trivial = derived from a valid encoding or structured generator (everything except class 'random'); distinct by case text",
